@@ -355,9 +355,13 @@ class ListContext(contexts.Context):
 
 
 class Family:
-    """layers: [{fns: [ospec], x: bool}] nearest first.  Builds root <- tick layer <- layer[n-1] <- .. <- layer[0]"""
+    """layers: [{fns: [ospec], x: bool}] nearest first.  Builds root <- tick layer <- layer[n-1] <- .. <- layer[0].
+    An overload is registered with exclusive=True when its layer has `x` or the ospec itself has `x`
+    (only some registrations of a layer saying so).  `reg_order`: [(layer index, overload id)] - the order of the
+    register_function calls (default: layer by layer from the outermost, each in list order); `fds`: overload
+    id -> FunctionDefinition objects to reuse instead of building new ones."""
 
-    def __init__(self, layers, ordered=False):
+    def __init__(self, layers, ordered=False, reg_order=None, fds=None):
         self.spec = layers
         self.fds = {}           # fid -> FunctionDefinition
         self.invalid = []       # fids that register_function rejected
@@ -369,29 +373,37 @@ class Family:
         self.ctxs = []
         for layer in reversed(layers):
             ctx = cls(ctx)
-            order = []
-            for o in layer['fns']:
-                fd = build_fd(o)
-                try:
-                    ctx.register_function(fd, exclusive=bool(layer.get('x')))
-                except exceptions.InvalidMethodException:
-                    self.invalid.append(o['id'])
-                    continue
-                self.fds[o['id']] = fd
-                order.append(fd)
-            if ordered:
-                ctx.order['f'] = order
             self.ctxs.insert(0, ctx)
         self.ctx = ctx
+        if reg_order is None:
+            reg_order = [(li, o['id']) for li in reversed(range(len(layers))) for o in layers[li]['fns']]
+        by_id = {(li, o['id']): o for li, layer in enumerate(layers) for o in layer['fns']}
+        for li, fid in reg_order:
+            o = by_id[(li, fid)]
+            fd = fds[fid] if fds and fid in fds else build_fd(o)
+            try:
+                self.ctxs[li].register_function(fd, exclusive=bool(layers[li].get('x')) or bool(o.get('x')))
+            except exceptions.InvalidMethodException:
+                self.invalid.append(fid)
+                continue
+            self.fds[fid] = fd
+        if ordered:
+            for li, layer in enumerate(layers):
+                self.ctxs[li].order['f'] = [self.fds[o['id']] for o in layer['fns'] if o['id'] in self.fds]
+
+    def layer_exclusive(self, li):
+        """the layer is exclusive for the name when ANY accepted registration said so"""
+        layer = self.spec[li]
+        return any(bool(layer.get('x')) or bool(o.get('x')) for o in layer['fns'] if o['id'] in self.fds)
 
     def enc_layers(self):
         out = []
-        for layer, ctx in zip(self.spec, self.ctxs):
+        for li, layer in enumerate(self.spec):
             fs = []
             for o in layer['fns']:
                 if o['id'] in self.fds:
                     fs.append(enc_fd(self.fds[o['id']], o['id']))
-            out.append(dict(fs=fs, x=bool(layer.get('x')) and bool(fs)))
+            out.append(dict(fs=fs, x=self.layer_exclusive(li)))
         return out
 
     def set_order(self, layer_index, fids):
